@@ -30,14 +30,19 @@ RULE = ('complete box of (n_inputs, nodes, cores, trials) with nodes*cores >= n_
         'tasks-per-input does not divide trials or tasks do not divide evenly over inputs '
         '(a remainder path is exercised); distinct = distinct (n_inputs, nodes, cores, trials); the smallest and '
         'largest trial count of every configuration also run with --delete-existing (jobs one after the other, '
-        'every task leaving its result file, all files must survive) and with n_cores omitted')
+        'every task leaving its result file, all files must survive) and with n_cores omitted; part '
+        'nodes-as-processes: every job index in its own interpreter with its own PYTHONHASHSEED (several '
+        'assignments of seeds to nodes), tasks summed over the nodes')
 ASSUMPTIONS = [
-    'glob returns the same input list on every node (same shared directory)',
+    'glob returns the same set of input files on every node (same shared directory)',
     'run_file(input, output, n) runs exactly n trials (that is C11/C12)',
 ]
 BOUNDS = {
-    'quick': {'n_inputs': [1, 5], 'nodes': [1, 4], 'cores': [1, 6], 'trials_max': 40},
-    'thorough': {'n_inputs': [1, 7], 'nodes': [1, 6], 'cores': [1, 8], 'trials_max': 130},
+    'quick': {'n_inputs': [1, 5], 'nodes': [1, 4], 'cores': [1, 6], 'trials_max': 40,
+              'procs': [(4, 4, 1, 3), (3, 2, 2, 5), (5, 3, 2, 7)], 'proc_rounds': 3},
+    'thorough': {'n_inputs': [1, 7], 'nodes': [1, 6], 'cores': [1, 8], 'trials_max': 130,
+                 'procs': [(4, 4, 1, 3), (3, 2, 2, 5), (5, 3, 2, 7), (6, 4, 2, 9), (7, 5, 2, 11), (2, 3, 1, 4),
+                           (5, 5, 1, 6)], 'proc_rounds': 8},
 }
 
 
@@ -51,6 +56,12 @@ def cases(tier, seed):
                     continue
                 out.append({'n_inputs': n_inputs, 'nodes': nodes, 'cores': cores,
                             'trials_max': b['trials_max']})
+    # every node is its own interpreter process, as on a cluster: the hash seed of each node is an
+    # environment answer (PYTHONHASHSEED), enumerated over a few assignments of distinct seeds to nodes
+    for (n_inputs, nodes, cores, trials) in b['procs']:
+        for rnd in range(b['proc_rounds']):
+            out.append({'part': 'procs', 'n_inputs': n_inputs, 'nodes': nodes, 'cores': cores, 'trials': trials,
+                        'seeds': [1 + 97 * rnd + 13 * j for j in range(nodes)]})
     return out
 
 
@@ -75,7 +86,85 @@ class _Recorder:
         self.rec['joined'] += 1
 
 
+_CHILD = r'''
+import sys, json, os, contextlib, io
+import panqec.cli as cli
+L = []
+class R:
+    def __init__(self, target=None, args=(), kwargs=None, **kw):
+        L.append([os.path.basename(args[0]), os.path.basename(args[1]), args[2], getattr(target, "__name__", "?")])
+    def start(self): pass
+    def join(self, *a): pass
+cli.multiprocessing.Process = R
+cli.multiprocessing.cpu_count = lambda: 64
+d, trials, nodes, job, cores = sys.argv[1], int(sys.argv[2]), int(sys.argv[3]), int(sys.argv[4]), int(sys.argv[5])
+with contextlib.redirect_stdout(io.StringIO()):
+    cli.run_parallel.callback(d, trials, nodes, job, cores, False)
+print("TASKS " + json.dumps(L))
+'''
+
+
+def eval_procs(case):
+    """Each job index runs in its own interpreter with its own hash seed (a node of a cluster); the tasks
+    all nodes launch together must give every input exactly the requested trials."""
+    import json
+    import subprocess
+    import sys
+    n_inputs, nodes, cores, trials = case['n_inputs'], case['nodes'], case['cores'], case['trials']
+    res = {'evals': 0, 'nontrivial': 0, 'violations': [], 'samples': [], 'outcomes': []}
+    d = tempfile.mkdtemp(prefix='c14p_', dir='/dev/shm' if os.path.isdir('/dev/shm') else None)
+    try:
+        os.makedirs(os.path.join(d, 'inputs'))
+        # names whose order is not the creation order and whose hashes are unrelated to it
+        names = ['%s_L%d.json' % (['toric', 'planar', 'rotated', 'xcube', 'rhombic', 'color', 'hollow'][i], 3 + 2 * i)
+                 for i in range(n_inputs)]
+        for nm in names[::-1]:
+            with open(os.path.join(d, 'inputs', nm), 'w') as f:
+                f.write('{}')
+        L, errs = [], []
+        for job, hs in zip(range(1, nodes + 1), case['seeds']):
+            env = dict(os.environ, PYTHONHASHSEED=str(hs))
+            r = subprocess.run([sys.executable, '-c', _CHILD, d, str(trials), str(nodes), str(job), str(cores)],
+                               capture_output=True, text=True, env=env)
+            res['evals'] += 1
+            line = [l for l in r.stdout.splitlines() if l.startswith('TASKS ')]
+            if r.returncode != 0 or not line:
+                errs.append('job %d: %s' % (job, (r.stderr.strip().splitlines() or ['?'])[-1][:150]))
+                continue
+            L += [dict(zip(('input', 'output', 'n', 'target'), t), job=job) for t in json.loads(line[0][6:])]
+        per = {nm: 0 for nm in names}
+        for t in L:
+            per[t['input']] = per.get(t['input'], 0) + t['n']
+        problems = []
+        if errs:
+            problems.append(('exception', '; '.join(errs)[:300]))
+        else:
+            if len(L) != nodes * cores:
+                problems.append(('task-count', 'launched %d tasks, expected %d' % (len(L), nodes * cores)))
+            if any(per.get(nm) != trials for nm in names) or set(per) != set(names):
+                problems.append(('trial-count', 'per-input totals %s, requested %d' % (per, trials)))
+            if len({t['output'] for t in L}) != len(L):
+                problems.append(('shared-result-file', 'two tasks write the same result file'))
+            if any(t['n'] < 1 for t in L):
+                problems.append(('zero-trials', 'a task got fewer than 1 trial'))
+        for kind, msg in problems:
+            res['violations'].append({
+                'key': {'part': 'nodes-as-processes', 'kind': kind, 'n_inputs': n_inputs, 'nodes': nodes,
+                        'cores': cores, 'trials': trials, 'hash_seeds': list(case['seeds'])},
+                'detail': {'message': msg,
+                           'launched': [[t['job'], t['input'], t['output'], t['n']] for t in L][:24]}})
+        res['nontrivial'] = 1
+        res['outcomes'] = ['procs|%s' % sorted(per.values())]
+        res['samples'].append({'part': 'nodes-as-processes', 'n_inputs': n_inputs, 'nodes': nodes, 'cores': cores,
+                               'trials': trials, 'hash_seeds': case['seeds'], 'per_input': per})
+    finally:
+        shutil.rmtree(d, ignore_errors=True)
+    return res
+
+
 def eval_case(case):
+    if case.get('part') == 'procs':
+        return eval_procs(case)
     import panqec.cli as cli
     n_inputs, nodes, cores = case['n_inputs'], case['nodes'], case['cores']
     n_tasks = nodes * cores
